@@ -19,9 +19,9 @@ import (
 )
 
 type ycfg struct {
-	sets []*pset
+	sets             []*pset
 	rAbsent, pAbsent map[uint]bool
-	def  uint
+	def              uint
 }
 
 func (y *ycfg) yaml(base string) string {
@@ -204,6 +204,9 @@ func suiteC14(c *ctx) {
 			}
 			if r.Intn(5) == 0 { // switch the default: records name the set that is default at write time
 				d.Default = y.sets[r.Intn(len(y.sets))].id
+			}
+			if op == "update" && r.Intn(3) == 0 {
+				h.skew(r, u) // the replaced record carries a time from another clock
 			}
 			before := time.Now().Unix()
 			h.write(op, u, pw, u == "root")
